@@ -6,6 +6,7 @@ compressor pair and compression codes, any bloom filter without false negatives,
 (verify on load / on read), all probe keys and range bounds.
 -/
 import SST.Proofs.SSTableReader
+import SST.Proofs.SSTableDisk
 namespace SST.C03
 open SST Generated
 
@@ -67,11 +68,80 @@ theorem map_index_pad_collision (comps : Nat → Compression) (cfg : SstCfg) (hc
 /-- the collision input violates the hypothesis of the partial theorem, as it must -/
 example : ¬ PadInjective 4 [[97], [97, 0]] [97] := by decide
 
+/-! ## disk loader (documented EXPERIMENTAL in sstables/README.md) -/
+
+/-- PARTIAL (disk loader).  Full statement: as for the slice loader.  Proved: the table opens (verification
+on load included) and the full `Scan` is the sorted map, provided no index record embeds the bytes of a
+complete valid record (`NoPhantom`, decidable on the index file).  Contains / Get / ScanStartingAt /
+ScanRange are NOT proved because they are false of the code even without phantoms: see
+`disk_index_eof_in_binary_search` and `disk_index_range_upper_below_min`; without the hypothesis the scan
+fails too: `disk_index_phantom_in_index_payload`. -/
+theorem table_reads_as_map_disk_partial (comps : Nat → Compression) (cfg : SstCfg) (kvs : List KV)
+    (hcmp : cfg.cmp = bytesCmp) (hc : CompsOk comps cfg) (hf : FitsKV cfg kvs) (hs : StrictAsc bytesCmp kvs)
+    (hnp : Proofs.NoPhantom cfg.ic cfg.ict ((entriesOf cfg.dc kvs).map indexRecOf))
+    (o : ReadOpts) (bloom : Option (Bytes → Bool)) :
+    ∃ r idx, openTable comps .disk o (writeTable cfg kvs) bloom = .ok (r, idx) ∧
+      r.scan comps idx = .ok (kvs.map normKV, .done) :=
+  Proofs.Sst.disk_scan comps cfg kvs hcmp hc hf hs hnp o bloom
+
+/-- COUNTEREXAMPLE (D4, finding `disk-index:eof-in-binary-search`): the binary search over byte offsets
+probes an offset behind the start of the last index record, `SeekNext` reports end-of-file there and the
+search answers "absent".  Two keys, the second longer than the first: BOTH written keys are not found. -/
+theorem disk_index_eof_in_binary_search :
+    probeGet .disk [([1], some [7]), ([2, 2, 2, 2, 2, 2, 2, 2, 2, 2, 2, 2], some [8])]
+      [2, 2, 2, 2, 2, 2, 2, 2, 2, 2, 2, 2] = some (.error .notFound) ∧
+    probeGet .disk [([1], some [7]), ([2, 2, 2, 2, 2, 2, 2, 2, 2, 2, 2, 2], some [8])] [1] = some (.error .notFound) ∧
+    probeGet .slice [([1], some [7]), ([2, 2, 2, 2, 2, 2, 2, 2, 2, 2, 2, 2], some [8])] [1] = some (.ok (some [7])) := by
+  decide +kernel
+
+/-- COUNTEREXAMPLE (D5, finding `disk-index:range-upper-below-min`): a range whose upper bound lies below
+the smallest key returns the WHOLE table (`endOffset - 1` wraps around at offset 0); the sorted map (and the
+slice loader) answer the empty range. -/
+theorem disk_index_range_upper_below_min :
+    probeRange .disk [([5], some [1]), ([6], some [2]), ([7], some [3])] [1] [2] =
+      .ok ([(some [5], some [1]), (some [6], some [2]), (some [7], some [3])], .done) ∧
+    probeRange .slice [([5], some [1]), ([6], some [2]), ([7], some [3])] [1] [2] = .ok ([], .done) := by
+  decide +kernel
+
+/-- a key that embeds the bytes of a complete valid record whose payload parses as an index entry for "zz" -/
+def phantomKey : Bytes := [9] ++ encRecord none (some (encIndexEntry [122, 122] 8 0))
+
+/-- COUNTEREXAMPLE (finding `disk-index:phantom-in-index-payload`): `SeekNext` stops at the record embedded
+in a key; the disk iterator then yields an index entry nobody wrote: `Scan` delivers the unwritten key "zz"
+(and then runs out of data records), `Get("zz")` finds it with the first value of the table. -/
+theorem disk_index_phantom_in_index_payload :
+    probeScan .disk [([1], some [1]), (phantomKey, some [2]), ([200], some [3])] =
+      .ok ([(some [1], some [1]), (some phantomKey, some [2]), (some [122, 122], some [3])], .err .eof) ∧
+    probeGet .disk [([1], some [1]), (phantomKey, some [2]), ([200], some [3])] [122, 122] = some (.ok (some [1])) ∧
+    probeScan .slice [([1], some [1]), (phantomKey, some [2]), ([200], some [3])] =
+      .ok ([(some [1], some [1]), (some phantomKey, some [2]), (some [200], some [3])], .done) := by
+  decide +kernel
+
+/-- COUNTEREXAMPLE (finding `disk-index:cached-failed-read-matches-empty-key`): `findAt` caches the empty
+record left behind by a FAILED `SeekNext` and returns it later without the error; an empty record compares
+equal to the empty key.  On an empty table the same call `Get("")` is "not found" four times (each failed probe offset
+is cached) and the fifth time "finds" the cached record and fails reading the data file at offset 0. -/
+theorem disk_index_cached_failed_read :
+    probeGets .disk [] [[], [], [], [], []] =
+      [some (.error .notFound), some (.error .notFound), some (.error .notFound), some (.error .notFound),
+       some (.error .magic)] := by
+  decide +kernel
+
 /-- non-vacuity: a concrete ascending list with a nil value, an empty value, marker bytes and the empty key;
 a probe that zero padding keeps apart from the keys -/
 example : StrictAsc bytesCmp [(([] : Bytes), (none : GoBytes)), ([0x91], some []), ([0x91, 0x8d], some [0x91, 0x8d, 0x4c])] := by
   unfold StrictAsc; decide
 
 example : PadInjective 4 [[97], [98, 0, 1]] [97, 1] := by decide
+
+/-- the configuration hypotheses are satisfiable: no compression, and the sizes of that list fit -/
+example : CompsOk plainComps plainCfg := ⟨rfl, rfl, trivial, trivial, by decide, by decide⟩
+
+example : FitsKV plainCfg [([], none), ([0x91], some []), ([0x91, 0x8d], some [0x91, 0x8d, 0x4c])] := by
+  unfold FitsKV
+  exact ⟨by decide +kernel, by decide +kernel, by decide +kernel⟩
+
+example : BloomOk (some fun _ => true) [(([1] : Bytes), (none : GoBytes))] := by
+  intro bf h p _; cases h; rfl
 
 end SST.C03
